@@ -368,6 +368,15 @@ fn main() {
                     if let Some(c2) = eng_circ::reextract(&cj) {
                         eng_circ::record_eq_pair(&cj, &c2, "reextract", tr);
                     }
+                    // global phases e^{i pi n/d} that are not multiples of pi/4 (float scalars), both argument orders
+                    if n >= 1 && count % 3 == 0 {
+                        const GP: [(i64, i64); 10] = [(1, 3), (-1, 3), (2, 3), (-2, 3), (1, 5), (-3, 5), (3, 8), (-5, 8), (1, 7), (-6, 7)];
+                        for j in 0..2 {
+                            let (pn, pd) = GP[(count / 3 * 2 + j) % GP.len()];
+                            eng_circ::record_eq_generic(&cj, (count + j) % n, pn, pd, j == 0, tr);
+                            eng_circ::record_eq_generic(&cj, (count + j) % n, pn, pd, j != 0, tr);
+                        }
+                    }
                     prev = cj;
                 } else {
                     let rhs = if prev["n"] == cj["n"] { prev.clone() } else { cj.clone() };
